@@ -3,15 +3,16 @@ CFG = dict(
     prop_file='Properties/C03.v',
     coq_extra=['Front/Run.v'],
     harness='c03',
+    timeout=dict(quick=900, thorough=3000),
     trusted=[
         'the ANTLR runtime and the generated lexer (how a text is cut into raw tokens, in which lexer mode) are not modelled; the model starts at the raw token stream BaseLexer.NextToken delivers and is tied to the real SyslLexer.NextToken output token by token',
-        'parser + listener are taken to be a function of the default-channel token sequence; that a layout change does not alter how the text of a line is cut into tokens is not proved but checked on every case by the metamorphic oracle (compile both texts with the real parser, compare modules and acceptance)',
+        'parser + listener are taken to be a function of the default-channel token sequence; that a layout change leaves the cutting of each line into tokens unchanged is not proved but checked on every case by the metamorphic oracle (both texts compiled with the real parser; modules compared after clearing source contexts; acceptance compared)',
         'the LexerTables translator decides what Gen/LexerTables.v says about rule actions, the bypass list, calcSpaces weights and the statement sequence of getNextToken',
     ],
-    assumptions=['layout transformations are applied to whole lines as the lexer sees them (a line whose first column starts a token); whole-line comments starting in the first column only where the default lexer mode is active'],
+    assumptions=['layout transformations are applied to whole lines as the lexer sees them (a line in whose first column a token starts - continuation lines of multi-line tokens are left alone); whole-line comments starting in the first column only where the default lexer mode is active (inside view bodies `#` in column 0 is not a comment for the grammar)'],
 )
 TEXT = dict(
-    level='placeholder',
-    note='placeholder',
+    level='Theorems in Coq over a transliteration of getNextToken (indent stack, spaces, gotNewLine, synthetic INDENT/DEDENT) and calcSpaces, for all token streams and all lexer tables: the synthesis loop never pops an empty stack and ends within stack-height+1 rounds; multiplying the line-leading whitespace by any k>0 (inner whitespace untouched), replacing any 4-space unit of a whitespace token by a tab at any offset (also spaces-then-tab) or back, and inserting any number of blank-line / whole-line-comment tokens at any set of line boundaries (after ANY line-ending token; before the first line when it starts in column 0) leave the default-channel token sequence incl. INDENT/DEDENT unchanged - and so does every composition of these, applied or undone. The tables (rule actions, bypass list, comment token, tab weight 4, statement sequence of getNextToken and its helpers) are regenerated from sysl_lexer.go / lexer_impl.go on every run and the side conditions (every layout token kind is a bypassed line end; tab = 4 spaces) are re-proved against them. Tied to the code token by token: the real SyslLexer.NextToken output (hidden tokens included) of generated specs, corpus files, their re-laid-out variants and all whitespace strings up to length 6 (quick) / 9 (thorough) is compared in Coq with the model. The property itself (equal compiled models, equal acceptance) is judged on every (text, layout script) pair by compiling both with the real parser.',
+    note='Trusted: Coq kernel + vm_compute, the LexerTables translator, the harness. Not modelled: ANTLR tokenisation of a line (incl. the lexer predicates that read `spaces`), parser and listener - the step from "same default-channel tokens" to "same model" is covered only by the metamorphic oracle on sampled texts, not proved. Known finding: the indentation of the very first line of a file is ignored unless a blank/comment line precedes it. Design items not built: Blocks.v (forest view of INDENT/DEDENT); thorough tier samples boundaries/subsets instead of enumerating every corpus file x every boundary.',
     technique='Coq proof over lexer indentation model + regenerated lexer tables + token-level and metamorphic correspondence',
 )
